@@ -85,6 +85,8 @@ pub struct Tr<'a> {
     pub fn_coq: String,
     pub loop_counter: usize,
     pub aux_defs: Vec<String>,
+    /// type arguments of the turbofish of the call being translated (for callees with `assoc_params`)
+    pub turbofish_types: Option<Vec<String>>,
 }
 
 pub fn lit(n: i128) -> String {
@@ -157,6 +159,7 @@ pub fn conv_ty(t: &Type, adts: &dyn Fn(&str) -> Option<Ty>, generics: &BTreeSet<
             }
             conv_ty(&r.elem, adts, generics, self_ty)
         }
+        Type::Slice(sl) => Ok(Ty::Slice(Box::new(conv_ty(&sl.elem, adts, generics, self_ty)?))),
         Type::Paren(p) => conv_ty(&p.elem, adts, generics, self_ty),
         Type::Group(p) => conv_ty(&p.elem, adts, generics, self_ty),
         Type::Tuple(tt) => {
@@ -215,6 +218,16 @@ pub fn conv_ty(t: &Type, adts: &dyn Fn(&str) -> Option<Ty>, generics: &BTreeSet<
                     None => Err(unsupported(t, "`Self` outside an impl")),
                 },
                 "Option" => Ok(Ty::Option(Box::new(arg1(seg)?))),
+                "Result" => {
+                    if let PathArguments::AngleBracketed(a) = &seg.arguments {
+                        if a.args.len() == 2 {
+                            if let (GenericArgument::Type(x), GenericArgument::Type(y)) = (&a.args[0], &a.args[1]) {
+                                return Ok(Ty::Result(Box::new(conv_ty(x, adts, generics, self_ty)?), Box::new(conv_ty(y, adts, generics, self_ty)?)));
+                            }
+                        }
+                    }
+                    Err(unsupported(t, "generic arguments of `Result`"))
+                }
                 "Range" => Ok(Ty::Range(Box::new(arg1(seg)?))),
                 "RangeInclusive" => Ok(Ty::RangeIncl(Box::new(arg1(seg)?))),
                 n if p.path.segments.len() == 1 && generics.contains(n) => Ok(Ty::Param(name)),
@@ -305,7 +318,7 @@ impl<'ast, 'm> Visit<'ast> for EffVisitor<'m> {
     }
     fn visit_expr_method_call(&mut self, i: &'ast ExprMethodCall) {
         let n = i.method.to_string();
-        if self.mut_methods.contains(&n) || (n == "next" && i.args.is_empty()) {
+        if self.mut_methods.contains(&n) || (n == "next" && i.args.is_empty()) || n == "get_mut" {
             if let Some(r) = place_root(&i.receiver) {
                 self.eff.assigned.insert(r);
             }
